@@ -6,11 +6,13 @@
    evaluator call (D1); a panic that leaves a nested printer cannot leave the caller's buffer
    behind (the model's nested printer returns the buffer on every outcome - the repaired
    behaviour; the correspondence compares it with the code).
-   NOT a theorem: absence of Go runtime panics in the slice arithmetic of buffer.go (the model is
-   list-level; compared state by state with the implementation incl. invalid runes) and the
-   exact shape of the PANIC= report (correspondence + black-box predicates) (_partial). *)
+   INDEX SAFETY (C11_no_slice_expression_out_of_range): on the memory-level model of buffer.go
+   (BufMem.v: arrays with a capacity, checked slice expressions and indexed writes, grow /
+   tryGrowByReslice / makeSlice as in the code) NO call sequence, with any payloads, runes, bytes
+   and any capacity decisions of the runtime, evaluates a slice expression out of range.
+   NOT a theorem: the exact shape of the PANIC= report (correspondence + black-box predicates). *)
 From Redact Require Import Bytes Tokens Utf8 Buffer Ops BufInv LBuf Printer Api.
-From Redact Require Import Utf8P BufInvP BufferThm Hoare Keeps.
+From Redact Require Import Utf8P BufInvP BufferThm Hoare Keeps BufMem BufMemP.
 Import List ListNotations.
 
 Theorem C11_every_rune_is_written_validly : forall r, valid_utf8 (encode_rune r) = true.
@@ -33,6 +35,11 @@ Print Assumptions C11_mode_and_override_survive_panics.
 Theorem C11_nested_printer_hands_the_buffer_back : forall rec c, keeps (nested rec c).
 Proof. exact keeps_nested. Qed.
 Print Assumptions C11_nested_printer_hands_the_buffer_back.
+
+Theorem C11_no_slice_expression_out_of_range : forall ops h c, cinv h c ->
+  exists h' c', crun h c ops = Some (h', c') /\ cabs h' c' = run_from (cabs h c) (map fst ops) /\ cinv h' c'.
+Proof. exact crun_refines. Qed.
+Print Assumptions C11_no_slice_expression_out_of_range.
 
 (* Non-vacuity: an invalid rune in an open envelope; a Stringer whose String panics while the
    operand is printed: the text before and after is intact and the payload is enveloped. *)
